@@ -33,14 +33,22 @@ def _typed_coerce(
     return _coerce
 
 
-_coerce_bool_node = _typed_coerce(bool, _ast.BooleanValue)
+def _parse_bool(value: Any) -> bool:
+    if isinstance(value, (list, tuple, dict)):
+        raise ValueError(
+            'Boolean cannot represent non boolean value "%s"' % (value,)
+        )
+    return bool(value)
+
+
+_coerce_bool_node = _typed_coerce(_parse_bool, _ast.BooleanValue)
 
 
 Boolean = ScalarType(
     "Boolean",
     description="The `Boolean` scalar type represents `true` or `false`.",
     serialize=bool,
-    parse=bool,
+    parse=_parse_bool,
     parse_literal=_coerce_bool_node,
 )
 
@@ -146,6 +154,8 @@ Float = ScalarType(
 def _parse_string(value: Any) -> str:
     if isinstance(value, (list, tuple)):
         raise ValueError('String cannot represent list value "%s"' % value)
+    if isinstance(value, dict):
+        raise ValueError('String cannot represent object value "%s"' % value)
     return str(value)
 
 
@@ -170,7 +180,14 @@ String = ScalarType(
     parse_literal=_coerce_string_node,
 )  # type: ScalarType
 
-_coerce_id_node = _typed_coerce(str, _ast.StringValue, _ast.IntValue)
+
+def _parse_id(value: Any) -> str:
+    if isinstance(value, (list, tuple, dict)):
+        raise ValueError('ID cannot represent value "%s"' % (value,))
+    return str(value)
+
+
+_coerce_id_node = _typed_coerce(_parse_id, _ast.StringValue, _ast.IntValue)
 
 
 ID = ScalarType(
@@ -184,7 +201,7 @@ ID = ScalarType(
         "an ID."
     ),
     serialize=str,
-    parse=str,
+    parse=_parse_id,
     parse_literal=_coerce_id_node,
 )
 
